@@ -230,14 +230,14 @@ Proof.
   split; intros H; [apply Nat.eqb_eq in H; congruence | inversion H; apply Nat.eqb_refl].
 Qed.
 
-(* rows in the file = tasks whose release succeeded, each exactly once: under EVERY schedule *)
+(* rows in the file = the work packages that ended in DoneOk, each exactly once: under EVERY schedule, both variants *)
 Definition file_inv (st : lstate) : Prop :=
   NoDup (file st) /\ forall t, In t (file st) <-> phases st t = PDoneOk.
 
 Lemma file_inv_init : file_inv linit.
 Proof. split; [constructor|]. intros t. cbn. split; [contradiction | discriminate]. Qed.
 
-Lemma file_inv_step st t a : file_inv st -> file_inv (lstep st t a).
+Lemma file_inv_step early st t a : file_inv st -> file_inv (lstep_gen early st t a).
 Proof.
   intros Same. pose proof Same as [Hnd Hin].
   assert (Keep : forall p l, p <> PDoneOk -> phases st t <> PDoneOk ->
@@ -246,14 +246,8 @@ Proof.
     destruct (Nat.eq_dec u t) as [->|Hu].
     - rewrite setp_same. rewrite Hin. split; intros; congruence.
     - rewrite setp_other by exact Hu. apply Hin. }
-  unfold lstep. destruct (phases st t) eqn:P; destruct a; try exact Same.
-  - destruct (free_for (lock st) t); [apply Keep; congruence | exact Same].
-  - apply Keep; congruence.
-  - apply Keep; congruence.
-  - destruct (owned_by (lock st) t); apply Keep; congruence.
-  - destruct (owned_by (lock st) t); [|apply Keep; congruence].
-    (* the successful release *)
-    assert (Hnot : ~ In t (file st)) by (rewrite Hin; congruence).
+  assert (Add : forall l, phases st t <> PDoneOk -> file_inv (LS l (setp (phases st) t PDoneOk) (file st ++ [t]))).
+  { intros l Ht. assert (Hnot : ~ In t (file st)) by (rewrite Hin; exact Ht).
     split; cbn [file phases].
     + clear - Hnd Hnot. induction (file st) as [|x r IH]; cbn.
       * constructor; [intros []|constructor].
@@ -263,37 +257,76 @@ Proof.
     + intros u. rewrite in_app_iff. destruct (Nat.eq_dec u t) as [->|Hu].
       * rewrite setp_same. split; [reflexivity|]. intros _. right. left. reflexivity.
       * rewrite setp_other by exact Hu. rewrite <- Hin.
-        split; [intros [H|[H|[]]]; [exact H | congruence] | intros H; left; exact H].
+        split; [intros [H|[H|[]]]; [exact H | congruence] | intros H; left; exact H]. }
+  unfold lstep_gen. destruct (phases st t) eqn:P; destruct a; try exact Same.
+  - destruct (free_for (lock st) t); [apply Keep; congruence | exact Same].
+  - apply Keep; congruence.
+  - apply Keep; congruence.
+  - destruct (owned_by (lock st) t); apply Keep; congruence.
+  - destruct (owned_by (lock st) t); [apply Add; congruence|].
+    destruct early; [apply Add; congruence | apply Keep; congruence].
 Qed.
 
-Lemma file_inv_run : forall sched st, file_inv st -> file_inv (lrun st sched).
+Lemma file_inv_run early : forall sched st, file_inv st -> file_inv (lrun_gen early st sched).
 Proof.
-  induction sched as [|[t a] r IH]; intros st H; cbn [lrun]; [exact H|]. apply IH. apply file_inv_step. exact H.
+  induction sched as [|[t a] r IH]; intros st H; cbn [lrun_gen]; [exact H|]. apply IH. apply file_inv_step. exact H.
 Qed.
 
-Lemma lock_file_sound sched :
-  NoDup (file (lrun linit sched)) /\
-  forall t, In t (file (lrun linit sched)) <-> phases (lrun linit sched) t = PDoneOk.
+Lemma lock_file_sound early sched :
+  NoDup (file (lrun_gen early linit sched)) /\
+  forall t, In t (file (lrun_gen early linit sched)) <-> phases (lrun_gen early linit sched) t = PDoneOk.
 Proof. apply file_inv_run. apply file_inv_init. Qed.
+
+(* the current code (row flushed while the lock is believed held): without a time-out no row is lost, whatever the
+   interleaving - mutual exclusion is not needed any more *)
+Lemma no_loss_step st t : (forall u, phases st u <> PDoneLost) -> forall u, phases (lstep st t Step) u <> PDoneLost.
+Proof.
+  intros H. unfold lstep, lstep_gen.
+  assert (Set_ : forall p l f, p <> PDoneLost -> forall u, phases (LS l (setp (phases st) t p) f) u <> PDoneLost).
+  { intros p l f Hp u. cbn [phases]. destruct (Nat.eq_dec u t) as [->|Hu]; [rewrite setp_same; exact Hp | rewrite setp_other by exact Hu; apply H]. }
+  destruct (phases st t) eqn:P; try exact H.
+  - destruct (free_for (lock st) t); [apply Set_; discriminate | exact H].
+  - apply Set_; discriminate.
+  - destruct (owned_by (lock st) t); apply Set_; discriminate.
+  - destruct (owned_by (lock st) t); apply Set_; discriminate.
+Qed.
+
+Lemma no_timeout_no_loss : forall sched st, (forall u, phases st u <> PDoneLost) ->
+  Forall (fun s => snd s = Step) sched -> forall u, phases (lrun st sched) u <> PDoneLost.
+Proof.
+  induction sched as [|[t a] r IH]; intros st H F; [exact H|].
+  inversion F as [|? ? Ha Fr]; subst. cbn [snd] in Ha. subst a.
+  change (lrun st ((t, Step) :: r)) with (lrun (lstep st t Step) r). apply IH; [apply no_loss_step; exact H | exact Fr].
+Qed.
+
+Lemma flush_no_loss sched : Forall (fun s => snd s = Step) sched ->
+  forall t, finished (phases (lrun linit sched) t) = true -> In t (file (lrun linit sched)).
+Proof.
+  intros F t Ft. apply (proj2 (lock_file_sound true sched)).
+  pose proof (no_timeout_no_loss sched linit (fun u => ltac:(discriminate)) F t) as Hn.
+  fold (lrun linit sched). destruct (phases (lrun linit sched) t); try discriminate; [reflexivity | congruence].
+Qed.
 
 (* mutual exclusion, as a property of a schedule: before every step at most one task is between its
    successful check and its release, and nobody times out *)
 Definition mutex_state (st : lstate) : Prop :=
   forall t u, critical (phases st t) = true -> critical (phases st u) = true -> t = u.
 
-Fixpoint mutex_run (st : lstate) (sched : list (nat * action)) : Prop :=
+Fixpoint mutex_run_gen (early : bool) (st : lstate) (sched : list (nat * action)) : Prop :=
   match sched with
   | [] => True
-  | (t, a) :: r => a = Step /\ mutex_state st /\ mutex_run (lstep st t a) r
+  | (t, a) :: r => a = Step /\ mutex_state st /\ mutex_run_gen early (lstep_gen early st t a) r
   end.
+Definition mutex_run := mutex_run_gen true.
+Definition mutex_run_pinned := mutex_run_gen false.
 
 Definition hold_inv (st : lstate) : Prop :=
   (forall t, phases st t = PWritten \/ phases st t = PHolding -> lock st = Some t) /\
   (forall t, phases st t <> PDoneLost).
 
-Lemma hold_inv_step st t : hold_inv st -> mutex_state st -> hold_inv (lstep st t Step).
+Lemma hold_inv_step early st t : hold_inv st -> mutex_state st -> hold_inv (lstep_gen early st t Step).
 Proof.
-  intros [Hl Hn] Hm. unfold lstep.
+  intros [Hl Hn] Hm. unfold lstep_gen.
   assert (Other : forall p l, (p = PWritten \/ p = PHolding -> l = Some t) -> p <> PDoneLost ->
             (forall u, u <> t -> phases st u = PWritten \/ phases st u = PHolding -> l = Some u) ->
             hold_inv (LS l (setp (phases st) t p) (file st))).
@@ -317,27 +350,37 @@ Proof.
     + intros Hp. exfalso. apply Hu. apply Hm; [destruct Hp as [E'|E']; rewrite E'; reflexivity | rewrite P; reflexivity].
 Qed.
 
-Lemma hold_inv_run : forall sched st, hold_inv st -> mutex_run st sched -> hold_inv (lrun st sched).
+Lemma hold_inv_run early : forall sched st, hold_inv st -> mutex_run_gen early st sched -> hold_inv (lrun_gen early st sched).
 Proof.
-  induction sched as [|[t a] r IH]; intros st H M; cbn [lrun]; [exact H|].
-  cbn [mutex_run] in M. destruct M as (-> & Hm & M). apply IH; [|exact M]. apply hold_inv_step; assumption.
+  induction sched as [|[t a] r IH]; intros st H M; cbn [lrun_gen]; [exact H|].
+  cbn [mutex_run_gen] in M. destruct M as (-> & Hm & M). apply IH; [|exact M]. apply hold_inv_step; assumption.
 Qed.
 
 Lemma hold_inv_init : hold_inv linit.
 Proof. split; intros t; cbn; [intros [H|H]; discriminate | discriminate]. Qed.
 
-(* with mutual exclusion every finished work package has its row in the file *)
-Lemma mutex_no_loss sched : mutex_run linit sched ->
-  forall t, finished (phases (lrun linit sched) t) = true -> In t (file (lrun linit sched)).
+(* with mutual exclusion every finished work package has its row in the file (both variants) *)
+Lemma mutex_no_loss early sched : mutex_run_gen early linit sched ->
+  forall t, finished (phases (lrun_gen early linit sched) t) = true -> In t (file (lrun_gen early linit sched)).
 Proof.
-  intros M t F. pose proof (hold_inv_run sched linit hold_inv_init M) as [_ Hn].
-  apply (proj2 (lock_file_sound sched)). specialize (Hn t).
-  destruct (phases (lrun linit sched) t); try discriminate; [reflexivity | congruence].
+  intros M t F. pose proof (hold_inv_run early sched linit hold_inv_init M) as [_ Hn].
+  apply (proj2 (lock_file_sound early sched)). specialize (Hn t).
+  destruct (phases (lrun_gen early linit sched) t); try discriminate; [reflexivity | congruence].
 Qed.
 
-(* the protocol itself does not give mutual exclusion: two work packages finish, one row reaches the file *)
-Lemma lock_loses_row :
-  let st := lrun linit double_acquire_schedule in
+(* the protocol itself does not give mutual exclusion.  Code before 1d8733c: two work packages finish, one row *)
+Lemma lock_loses_row_pinned :
+  let st := lrun_pinned linit double_acquire_schedule in
   Forall (fun s => snd s = Step) double_acquire_schedule /\
   phases st 0 = PDoneLost /\ phases st 1 = PDoneOk /\ file st = [1].
 Proof. cbn. repeat split; repeat constructor. Qed.
+
+(* current code, same interleaving: both rows *)
+Lemma lock_keeps_rows : file (lrun linit double_acquire_schedule) = [0; 1].
+Proof. reflexivity. Qed.
+
+(* the time-out still drops a row *)
+Lemma lock_timeout_loses_row :
+  let st := lrun linit timeout_schedule in
+  phases st 0 = PDoneLost /\ phases st 1 = PDoneOk /\ file st = [1].
+Proof. cbn. repeat split. Qed.
